@@ -18,7 +18,25 @@
 //	  => st=<status|-> rd=<eof|rst:<code>|…> wr=<open|stop:<code>> h=<-|ok m= proto= host= uri= cl= h= tr= b=<n> rerr=<0|1> t=<hdrs>> | …
 //	cli lim=<L> | e= q= d= te= f <field>… [t <field>…] | …
 //	  => stop=<open|stop:<code>> r=<E|ok code= cl= h= tr= b=<n> rerr=<0|1> t=<hdrs>|unsupported> | …
-//	conc | at=<k> gz=<0|1> m=<hex> host=<hex> path=<hex> x=<hex> | …   => ok <field>… | E:<class> | …
+//	conc | at=<k> gz=<0|1> [ef=<1|2>] m=<hex> host=<hex> path=<hex> x=<hex> | …   => ok <field>… | E:<class> | …
+//	rsp | id=<hex> tr=<0|1> a=<act>,<act>,… | …   => o=<out>,… w=<frame>,… end=<eof|rst:<code>|…> | …
+//
+// Round 5 (error paths and the state they leave behind):
+//   - a message may carry frames BEHIND its trailer section (`x h <field>…` a further HEADERS frame,
+//     `x d <n>` a further DATA frame), `nest=<k>` puts the first k of them INSIDE the payload of the
+//     trailer HEADERS frame (whose length te is then over the limit: decodeTrailers refuses the frame
+//     without reading it, so that its payload is parsed as frames next); `srv lim= rr=<N>` / `cli lim= rr=<N>`
+//     make the consumer of the LAST message call io.ReadAll N more times after the first one returned
+//     (a retry loop / a wrapper that reads on / draining on cleanup) and report `again=<bytes>`; what
+//     the raw peer saw of that exchange is then printed as `*` (the unread payload of a refused frame is
+//     parsed as frames by the later reads, with whatever consequences for the stream).
+//   - conc: ef=1 / ef=2 makes the request's first / second write to its stream (frame header / header
+//     block) fail; the requests after it go through the same requestWriter.
+//   - rsp: a real http3.Server faces a bare QUIC peer that sends GET requests; the handler of request k
+//     performs the k-th script: wh<code> WriteHeader, w<n> Write of n bytes, fl FlushError, dl1 / dl0
+//     SetWriteDeadline in the past / none, st set the trailer field. o = what each call returned
+//     (<n> | ok | E | -), w = the frames the peer read from the stream: H<status|->:<field>;… (fields
+//     sorted) | D<n> | T<type>:<n>.
 //
 // e / te are the lengths of the HEADERS frames' payloads (what the raw peer's QPACK encoder produced;
 // q=1 appends a truncated field line, i.e. a QPACK decoding error after the last field).
@@ -81,11 +99,37 @@ const settle = 8 * lat           // two round trips: everything the peer does in
 
 // ---------------------------------------------------------------- messages
 
+type tailItem struct {
+	hdr bool // a HEADERS frame (else a DATA frame of n bytes)
+	fs  []field
+	n   int
+}
+
 type msg struct {
 	enc, dlen, tenc int
 	qerr            bool
 	fs, trl         []field
 	hasTrl          bool
+	tail            []tailItem // frames behind the trailer section
+	nest            int        // the first nest of them are the payload of the trailer HEADERS frame
+}
+
+func appendFrame(out []byte, typ uint64, payload []byte) []byte {
+	out = quicvarint.Append(out, typ)
+	out = quicvarint.Append(out, uint64(len(payload)))
+	return append(out, payload...)
+}
+
+func tailWire(items []tailItem) []byte {
+	var out []byte
+	for _, it := range items {
+		if it.hdr {
+			out = appendFrame(out, 0x1, encodeBlock(it.fs, false))
+		} else {
+			out = appendFrame(out, 0x0, pattern(it.n))
+		}
+	}
+	return out
 }
 
 // a truncated literal field line (name length 7 announced, nothing follows): a QPACK decoding error
@@ -130,12 +174,21 @@ func (m *msg) wire() []byte {
 		out = append(out, pattern(m.dlen)...)
 	}
 	if m.hasTrl {
-		tb := encodeBlock(m.trl, false)
-		out = quicvarint.Append(out, 0x1)
-		out = quicvarint.Append(out, uint64(len(tb)))
-		out = append(out, tb...)
+		if m.nest > 0 {
+			out = appendFrame(out, 0x1, tailWire(m.tail[:m.nest]))
+		} else {
+			out = appendFrame(out, 0x1, encodeBlock(m.trl, false))
+		}
 	}
-	return out
+	return append(out, tailWire(m.tail[m.nest:])...)
+}
+
+// length of the trailer HEADERS frame's payload
+func (m *msg) trailerLen() int {
+	if m.nest > 0 {
+		return len(tailWire(m.tail[:m.nest]))
+	}
+	return len(encodeBlock(m.trl, false))
 }
 
 func fmtMsg(m *msg) string {
@@ -143,7 +196,11 @@ func fmtMsg(m *msg) string {
 	if m.qerr {
 		q = 1
 	}
-	s := fmt.Sprintf("e=%d q=%d d=%d te=%d f", m.enc, q, m.dlen, m.tenc)
+	s := fmt.Sprintf("e=%d q=%d d=%d te=%d", m.enc, q, m.dlen, m.tenc)
+	if m.nest > 0 {
+		s += fmt.Sprintf(" nest=%d", m.nest)
+	}
+	s += " f"
 	if len(m.fs) > 0 {
 		s += " " + fmtFields(m.fs)
 	}
@@ -151,6 +208,16 @@ func fmtMsg(m *msg) string {
 		s += " t"
 		if len(m.trl) > 0 {
 			s += " " + fmtFields(m.trl)
+		}
+	}
+	for _, it := range m.tail {
+		if it.hdr {
+			s += " x h"
+			if len(it.fs) > 0 {
+				s += " " + fmtFields(it.fs)
+			}
+		} else {
+			s += fmt.Sprintf(" x d %d", it.n)
 		}
 	}
 	return s
@@ -178,6 +245,8 @@ func parseMsg(part string) (*msg, bool) {
 			m.dlen = n
 		case "te":
 			m.tenc = n
+		case "nest":
+			m.nest = n
 		default:
 			return nil, false
 		}
@@ -186,15 +255,53 @@ func parseMsg(part string) (*msg, bool) {
 		return nil, false
 	}
 	i++
-	j := i
-	for ; j < len(w) && w[j] != "t"; j++ {
+	// frames behind the trailer section: x h <field>… | x d <n>
+	rest := w[i:]
+	for k := 0; k < len(rest); k++ {
+		if rest[k] == "x" {
+			items := rest[k:]
+			rest = rest[:k]
+			for len(items) > 0 {
+				if len(items) < 2 || items[0] != "x" {
+					return nil, false
+				}
+				e := 2
+				for e < len(items) && items[e] != "x" {
+					e++
+				}
+				switch items[1] {
+				case "h":
+					m.tail = append(m.tail, tailItem{hdr: true, fs: parseFields(items[2:e])})
+				case "d":
+					if e != 3 {
+						return nil, false
+					}
+					n, err := strconv.Atoi(items[2])
+					if err != nil || n < 0 || n > 1<<12 {
+						return nil, false
+					}
+					m.tail = append(m.tail, tailItem{n: n})
+				default:
+					return nil, false
+				}
+				items = items[e:]
+			}
+			break
+		}
 	}
-	m.fs = parseFields(w[i:j])
-	if j < len(w) {
+	j := 0
+	for ; j < len(rest) && rest[j] != "t"; j++ {
+	}
+	m.fs = parseFields(rest[:j])
+	if j < len(rest) {
 		m.hasTrl = true
-		m.trl = parseFields(w[j+1:])
+		m.trl = parseFields(rest[j+1:])
 	}
-	if m.dlen > 1<<16 || len(m.fs) > 200 || len(m.trl) > 200 {
+	if m.dlen > 1<<16 || len(m.fs) > 200 || len(m.trl) > 200 || len(m.tail) > 8 {
+		return nil, false
+	}
+	// frames behind the trailer section need a trailer section; nested ones replace its field section
+	if (len(m.tail) > 0 && !m.hasTrl) || m.nest < 0 || m.nest > len(m.tail) || (m.nest > 0 && len(m.trl) > 0) {
 		return nil, false
 	}
 	// a declared Content-Length brings in the body-length rules (property C18): such messages carry no body here
@@ -205,7 +312,7 @@ func parseMsg(part string) (*msg, bool) {
 	if m.enc != len(encodeBlock(m.fs, m.qerr)) {
 		return nil, false
 	}
-	if m.hasTrl != (m.tenc >= 0) || (m.hasTrl && m.tenc != len(encodeBlock(m.trl, false))) {
+	if m.hasTrl != (m.tenc >= 0) || (m.hasTrl && m.tenc != m.trailerLen()) {
 		return nil, false
 	}
 	return m, true
@@ -336,7 +443,18 @@ func (nw *network) close() {
 
 // ---------------------------------------------------------------- srv
 
-func runServer(lim int, msgs []*msg) []string {
+// readAgain calls io.ReadAll rr more times on a body whose first io.ReadAll has returned (a consumer that
+// reads on after an error) and returns the number of bytes it got.
+func readAgain(body io.Reader, rr int) int {
+	total := 0
+	for k := 0; k < rr; k++ {
+		b, _ := io.ReadAll(body)
+		total += len(b)
+	}
+	return total
+}
+
+func runServer(lim, rr int, msgs []*msg) []string {
 	res := make([]string, len(msgs))
 	for i := range res {
 		res[i] = "st=- rd=setup-failed wr=- h=-"
@@ -356,7 +474,11 @@ func runServer(lim int, msgs []*msg) []string {
 			rerr = 1
 		}
 		if i >= 0 && i < len(msgs) && !hasName(msgs[i].fs, "content-length") {
-			obs += fmt.Sprintf(" b=%d rerr=%d t=%s", len(body), rerr, fmtTrailerValues(r.Trailer))
+			obs += fmt.Sprintf(" b=%d rerr=%d", len(body), rerr)
+			if rr > 0 && i == len(msgs)-1 {
+				obs += fmt.Sprintf(" again=%d", readAgain(r.Body, rr))
+			}
+			obs += " t=" + fmtTrailerValues(r.Trailer)
 		}
 		mu.Lock()
 		if i >= 0 && i < len(seen) {
@@ -402,6 +524,10 @@ func runServer(lim int, msgs []*msg) []string {
 					h = "-"
 				}
 				res[i] = fmt.Sprintf("st=%s rd=%s wr=%s h=%s", firstStatus(data), streamEnd(rerr), wr, h)
+				if rr > 0 && i == len(msgs)-1 && h != "-" {
+					// the later reads parse the unread payload of a refused frame: whatever that does to the stream
+					res[i] = "st=* rd=* wr=* h=" + h
+				}
 				str.CancelRead(0x10c)
 			}
 			conn.CloseWithError(0x100, "")
@@ -443,7 +569,7 @@ func statusIs(fs []field, vals ...string) bool {
 	return false
 }
 
-func runClient(lim int, msgs []*msg) []string {
+func runClient(lim, rr int, msgs []*msg) []string {
 	res := make([]string, len(msgs))
 	for i := range res {
 		res[i] = "stop=- r=setup-failed"
@@ -510,7 +636,11 @@ func runClient(lim int, msgs []*msg) []string {
 					}
 					shown = !hasName(m.fs, "content-length") && statusIs(m.fs, "200", "404", "500")
 					if shown {
-						r += fmt.Sprintf(" b=%d rerr=%d t=%s", len(body), rerr, fmtTrailerValues(rsp.Trailer))
+						r += fmt.Sprintf(" b=%d rerr=%d", len(body), rerr)
+						if rr > 0 && i == len(msgs)-1 {
+							r += fmt.Sprintf(" again=%d", readAgain(rsp.Body, rr))
+						}
+						r += " t=" + fmtTrailerValues(rsp.Trailer)
 					}
 					rsp.Body.Close()
 				}
@@ -519,8 +649,9 @@ func runClient(lim int, msgs []*msg) []string {
 				case <-ctx.Done():
 				}
 				stop := stops[i]
-				if !shown {
-					// 1xx / 204 / declared Content-Length: what the body reader does is property C18's business
+				if !shown || (rr > 0 && i == len(msgs)-1 && err == nil) {
+					// 1xx / 204 / declared Content-Length: what the body reader does is property C18's business;
+					// reads after the first error parse the unread payload of a refused frame
 					stop = "*"
 				}
 				res[i] = "stop=" + stop + " r=" + r
@@ -540,6 +671,7 @@ func runClient(lim int, msgs []*msg) []string {
 // ---------------------------------------------------------------- conc
 
 type creq struct {
+	ef           int // 0: none; k: the k-th write of the request to its stream fails
 	at           int
 	gz           bool
 	m, host, path string
@@ -550,6 +682,7 @@ func runConc(rs []creq) []string {
 	reqs := make([]*http.Request, len(rs))
 	gz := make([]bool, len(rs))
 	at := make([]int, len(rs))
+	failAt := make([]int, len(rs))
 	bad := make([]bool, len(rs))
 	for i, c := range rs {
 		req, err := http.NewRequest(c.m, "https://"+c.host+c.path, nil)
@@ -558,9 +691,9 @@ func runConc(rs []creq) []string {
 			req, _ = http.NewRequest("GET", "https://invalid.example/", nil)
 		}
 		req.Header["X-Id"] = []string{c.x}
-		reqs[i], gz[i], at[i] = req, c.gz, c.at
+		reqs[i], gz[i], at[i], failAt[i] = req, c.gz, c.at, c.ef-1
 	}
-	fields, errs := http3.VerifInterleavedWriteHeaders(reqs, gz, at, 2*time.Millisecond)
+	fields, errs := http3.VerifInterleavedWriteHeadersFail(reqs, gz, at, failAt, 2*time.Millisecond)
 	out := make([]string, len(rs))
 	for i := range rs {
 		switch {
@@ -575,6 +708,359 @@ func runConc(rs []creq) []string {
 	return out
 }
 
+// ---------------------------------------------------------------- rsp
+
+type rscript struct {
+	id   string
+	tr   bool
+	acts []string
+}
+
+const (
+	rspDate  = "Mon, 01 Jan 2024 00:00:00 GMT"
+	rspCType = "text/plain"
+)
+
+func parseScript(part string) (*rscript, bool) {
+	sc := &rscript{}
+	for _, w := range strings.Fields(part) {
+		k, v, ok := strings.Cut(w, "=")
+		if !ok {
+			return nil, false
+		}
+		switch k {
+		case "id":
+			sc.id = unhx(v)
+		case "tr":
+			sc.tr = v == "1"
+		case "a":
+			if v != "" {
+				sc.acts = strings.Split(v, ",")
+			}
+		default:
+			return nil, false
+		}
+	}
+	if len(sc.acts) > 16 || len(sc.id) > 64 {
+		return nil, false
+	}
+	for _, a := range sc.acts {
+		switch {
+		case a == "fl" || a == "dl0" || a == "dl1" || a == "st":
+		case strings.HasPrefix(a, "wh"):
+			c, err := strconv.Atoi(a[2:])
+			if err != nil || c < 100 || c > 999 {
+				return nil, false
+			}
+		case strings.HasPrefix(a, "w"):
+			n, err := strconv.Atoi(a[1:])
+			if err != nil || n < 0 || n > 1<<16 {
+				return nil, false
+			}
+		default:
+			return nil, false
+		}
+	}
+	return sc, true
+}
+
+// the frames read from a response stream, each HEADERS frame decoded on its own
+func fmtWireFrames(b []byte) string {
+	var out []string
+	r := bytes.NewReader(b)
+	for r.Len() > 0 {
+		t, err := quicvarint.Read(r)
+		if err != nil {
+			out = append(out, "trunc")
+			break
+		}
+		l, err := quicvarint.Read(r)
+		if err != nil || l > uint64(r.Len()) {
+			out = append(out, "trunc")
+			break
+		}
+		p := make([]byte, l)
+		io.ReadFull(r, p)
+		switch t {
+		case 0x0:
+			out = append(out, fmt.Sprintf("D%d", l))
+		case 0x1:
+			var fs []field
+			ok := true
+			dec := qpack.NewDecoder().Decode(p)
+			for {
+				f, err := dec()
+				if err == io.EOF {
+					break
+				}
+				if err != nil {
+					ok = false
+					break
+				}
+				fs = append(fs, f)
+			}
+			if !ok {
+				out = append(out, "Hqpack-error")
+				continue
+			}
+			status := "-"
+			toks := make([]string, 0, len(fs))
+			for _, f := range fs {
+				if f.Name == ":status" && status == "-" {
+					status = f.Value
+				}
+				toks = append(toks, hx(f.Name)+"="+hx(f.Value))
+			}
+			sortStrings(toks)
+			out = append(out, "H"+status+":"+strings.Join(toks, ";"))
+		default:
+			out = append(out, fmt.Sprintf("T%d:%d", t, l))
+		}
+	}
+	if len(out) == 0 {
+		return "-"
+	}
+	return strings.Join(out, ",")
+}
+
+func runResp(scripts []*rscript) []string {
+	res := make([]string, len(scripts))
+	for i := range res {
+		res[i] = "o=- w=setup-failed end=-"
+	}
+	var mu sync.Mutex
+	cur := -1
+	outs := make([]string, len(scripts))
+	handler := http.HandlerFunc(func(w http.ResponseWriter, r *http.Request) {
+		mu.Lock()
+		i := cur
+		mu.Unlock()
+		if i < 0 || i >= len(scripts) {
+			return
+		}
+		sc := scripts[i]
+		w.Header()["Date"] = []string{rspDate}
+		w.Header()["Content-Type"] = []string{rspCType}
+		w.Header()["X-Id"] = []string{sc.id}
+		if sc.tr {
+			w.Header()["Trailer"] = []string{"X-T"}
+		}
+		dl, _ := w.(interface{ SetWriteDeadline(time.Time) error })
+		fl, _ := w.(interface{ FlushError() error })
+		var o []string
+		for _, a := range sc.acts {
+			switch {
+			case a == "fl":
+				if fl == nil || fl.FlushError() != nil {
+					o = append(o, "E")
+				} else {
+					o = append(o, "ok")
+				}
+			case a == "dl1":
+				dl.SetWriteDeadline(time.Now().Add(-time.Second))
+				o = append(o, "-")
+			case a == "dl0":
+				dl.SetWriteDeadline(time.Time{})
+				o = append(o, "-")
+			case a == "st":
+				if sc.tr {
+					w.Header()["X-T"] = []string{"tv-" + sc.id}
+				} else {
+					w.Header()[http.TrailerPrefix+"X-T"] = []string{"tv-" + sc.id}
+				}
+				o = append(o, "-")
+			case strings.HasPrefix(a, "wh"):
+				c, _ := strconv.Atoi(a[2:])
+				w.WriteHeader(c)
+				o = append(o, "-")
+			default:
+				n, _ := strconv.Atoi(a[1:])
+				m, err := w.Write(bytes.Repeat([]byte{'x'}, n))
+				if err != nil {
+					o = append(o, "E")
+				} else {
+					o = append(o, strconv.Itoa(m))
+				}
+			}
+		}
+		mu.Lock()
+		outs[i] = strings.Join(o, ",")
+		mu.Unlock()
+	})
+	run := func(t *testing.T) {
+		nw := newNetwork()
+		qconf := &quic.Config{MaxIdleTimeout: 120 * time.Second}
+		ctx, cancel := context.WithTimeout(context.Background(), 60*time.Second)
+		defer cancel()
+		server := &http3.Server{TLSConfig: srvTLS.Clone(), QUICConfig: qconf.Clone(), Handler: handler}
+		sdone := make(chan struct{})
+		go func() { defer close(sdone); server.Serve(nw.sconn) }()
+		ctr := &quic.Transport{Conn: nw.cconn}
+		conn, err := ctr.Dial(ctx, nw.serverAddr, cliTLS.Clone(), qconf.Clone())
+		if err == nil {
+			for i := range scripts {
+				mu.Lock()
+				cur = i
+				mu.Unlock()
+				str, err := conn.OpenStreamSync(ctx)
+				if err != nil {
+					res[i] = "o=- w=open-failed end=-"
+					continue
+				}
+				req := &msg{dlen: -1, tenc: -1, fs: []field{{":method", "GET"}, {":scheme", "https"}, {":authority", "localhost"}, {":path", fmt.Sprintf("/r%d", i)}}}
+				str.Write(req.wire())
+				str.Close()
+				str.SetReadDeadline(time.Now().Add(20 * settle))
+				data, rerr := io.ReadAll(str)
+				mu.Lock()
+				o := outs[i]
+				mu.Unlock()
+				if o == "" {
+					o = "-"
+				}
+				res[i] = fmt.Sprintf("o=%s w=%s end=%s", o, fmtWireFrames(data), streamEnd(rerr))
+				str.CancelRead(0x10c)
+			}
+			conn.CloseWithError(0x100, "")
+		}
+		server.Close()
+		<-sdone
+		ctr.Close()
+		nw.close()
+	}
+	synctest.Test(theT, run)
+	return res
+}
+
+// ---------------------------------------------------------------- round 5 generators
+
+// a message head that is accepted whatever else is generated: the scenario is about what follows it
+func simpleHead(r *vh.Rand, kind string) []field {
+	var fs []field
+	if kind == "resp" {
+		fs = []field{{":status", pick(r, []string{"200", "404", "500"})}}
+	} else {
+		fs = []field{{":method", pick(r, []string{"GET", "POST"})}, {":scheme", "https"},
+			{":authority", pick(r, []string{"a", "example.com"})}, {":path", pick(r, []string{"/", "/a/b?c=d"})}}
+	}
+	for k := r.Intn(3); k > 0; k-- {
+		fs = append(fs, field{pick(r, []string{"x-a", "x-b", "accept"}), randBytes(r, 1+r.Intn(6), false)})
+	}
+	return fs
+}
+
+// frames behind the trailer section: further (well-formed, non-empty) trailer sections and DATA frames
+func genTail(r *vh.Rand, n int) []tailItem {
+	var out []tailItem
+	for ; n > 0; n-- {
+		if r.Chance(55) {
+			fs := validTrailers(r)
+			if len(fs) == 0 {
+				fs = []field{{"x-checksum", "forged"}}
+			}
+			out = append(out, tailItem{hdr: true, fs: fs})
+		} else {
+			out = append(out, tailItem{n: r.Intn(31)})
+		}
+	}
+	return out
+}
+
+var badTrailerSections = [][]field{
+	{{"connection", "close"}}, {{":status", "200"}}, {{"X-Upper", "v"}}, {{"x-t", "a\nb"}}, {{"x-t", "v"}, {"transfer-encoding", "chunked"}},
+	{{"content-length", "5"}}, {{"", "v"}}, {{"x t", "v"}}, {{"x-t", "ok"}, {":path", "/"}}, {{"te", "gzip"}},
+}
+
+// genRetryMsg builds the last message of a connection whose consumer reads on after the first error:
+// a rejected / oversized / accepted trailer section with more frames behind it. It returns the limit
+// of the connection.
+func genRetryMsg(r *vh.Rand, kind string) (*msg, int) {
+	m := &msg{dlen: -1, tenc: -1, hasTrl: true}
+	m.fs = simpleHead(r, kind)
+	if r.Chance(75) {
+		m.dlen = r.Intn(30)
+	}
+	m.enc = len(encodeBlock(m.fs, false))
+	sz := max(sectionSize(m.fs), m.enc)
+	lim := sz + 1000 + r.Intn(5000)
+	switch r.Pick(40, 22, 18, 20) {
+	case 1: // the trailer frame is over the limit and its payload is a frame sequence of its own
+		lim = sz + r.Intn(24)
+		nested := genTail(r, 1+r.Intn(2))
+		if r.Chance(70) && !nested[0].hdr {
+			nested = append([]tailItem{{hdr: true, fs: []field{{"x-checksum", "forged"}}}}, nested...)
+		}
+		pad := tailItem{n: max(0, lim+1-len(tailWire(nested))) + r.Intn(20)}
+		if r.Bool() {
+			nested = append(nested, pad)
+		} else {
+			nested = append([]tailItem{pad}, nested...)
+		}
+		m.tail = append(nested, genTail(r, r.Intn(3))...)
+		m.nest = len(nested)
+	case 2: // an accepted trailer section, then more frames
+		m.trl = validTrailers(r)
+		m.tail = genTail(r, 1+r.Intn(3))
+	case 3: // a QPACK block over the limit
+		for k := 40 + r.Intn(40); k > 0; k-- {
+			m.trl = append(m.trl, field{"x-t", "v"})
+		}
+		if l := len(encodeBlock(m.trl, false)); l > sz {
+			lim = sz + r.Intn(min(24, l-sz))
+		}
+		m.tail = genTail(r, 1+r.Intn(3))
+	default: // a malformed trailer section within the limit, then more frames
+		if r.Chance(70) {
+			m.trl = append([]field(nil), badTrailerSections[r.Intn(len(badTrailerSections))]...)
+		} else {
+			m.trl = mutate(r, validTrailers(r), "trl")
+		}
+		m.tail = genTail(r, 1+r.Intn(3))
+	}
+	m.tenc = m.trailerLen()
+	if m.nest > 0 && m.tenc <= lim {
+		lim = m.tenc - 1
+	}
+	return m, lim
+}
+
+var rspWrites = []int{0, 1, 10, 100, 4095, 4096, 5000}
+
+func genScript(r *vh.Rand, k int) string {
+	var acts []string
+	one := func() string {
+		switch r.Pick(45, 20, 15, 10, 10) {
+		case 0:
+			return fmt.Sprintf("w%d", rspWrites[r.Intn(len(rspWrites))])
+		case 1:
+			return "fl"
+		case 2:
+			return "wh" + pick(r, []string{"200", "200", "404", "204", "304", "103", "100"})
+		case 3:
+			return "st"
+		default:
+			return pick(r, []string{"dl0", "dl1"})
+		}
+	}
+	for n := r.Intn(6); n > 0; n-- {
+		acts = append(acts, one())
+	}
+	if r.Chance(65) {
+		// the write deadline expires at one point of the script and (mostly) is extended at a later one
+		i := r.Intn(len(acts) + 1)
+		acts = append(acts[:i:i], append([]string{"dl1"}, acts[i:]...)...)
+		if r.Chance(70) {
+			j := i + 1 + r.Intn(len(acts)-i)
+			acts = append(acts[:j:j], append([]string{"dl0"}, acts[j:]...)...)
+		}
+	}
+	tr := 0
+	if r.Chance(40) {
+		tr = 1
+	}
+	return fmt.Sprintf("id=%s tr=%d a=%s", hx(fmt.Sprintf("resp-%d-%s", k, randBytes(r, 1+r.Intn(8), false))), tr, strings.Join(acts, ","))
+}
+
 // ---------------------------------------------------------------- runner
 
 type runner struct{}
@@ -587,17 +1073,28 @@ func (rn *runner) Exec(op string) string {
 	}
 	switch head[0] {
 	case "srv", "cli":
-		if len(head) != 2 || !strings.HasPrefix(head[1], "lim=") {
+		if len(head) < 2 || len(head) > 3 || !strings.HasPrefix(head[1], "lim=") {
 			return "bad-op"
 		}
 		lim, err := strconv.Atoi(head[1][4:])
 		if err != nil || lim < 1 || lim > 1<<24 {
 			return "bad-op"
 		}
+		rr := 0
+		if len(head) == 3 {
+			if !strings.HasPrefix(head[2], "rr=") {
+				return "bad-op"
+			}
+			rr, err = strconv.Atoi(head[2][3:])
+			if err != nil || rr < 1 || rr > 4 {
+				return "bad-op"
+			}
+		}
 		var msgs []*msg
 		for _, p := range parts[1:] {
 			m, ok := parseMsg(p)
-			if !ok {
+			if !ok || (m.nest > 0 && m.tenc <= lim) {
+				// a nested payload is only left unread (and parsed as frames) when the frame is over the limit
 				return "bad-op"
 			}
 			msgs = append(msgs, m)
@@ -605,9 +1102,24 @@ func (rn *runner) Exec(op string) string {
 		stop := vh.Watchdog(op, 60*time.Second)
 		defer stop()
 		if head[0] == "srv" {
-			return strings.Join(runServer(lim, msgs), " | ")
+			return strings.Join(runServer(lim, rr, msgs), " | ")
 		}
-		return strings.Join(runClient(lim, msgs), " | ")
+		return strings.Join(runClient(lim, rr, msgs), " | ")
+	case "rsp":
+		if len(head) != 1 || len(parts) > 9 {
+			return "bad-op"
+		}
+		var scs []*rscript
+		for _, p := range parts[1:] {
+			sc, ok := parseScript(p)
+			if !ok {
+				return "bad-op"
+			}
+			scs = append(scs, sc)
+		}
+		stop := vh.Watchdog(op, 60*time.Second)
+		defer stop()
+		return strings.Join(runResp(scs), " | ")
 	case "conc":
 		var rs []creq
 		for _, p := range parts[1:] {
@@ -621,7 +1133,14 @@ func (rn *runner) Exec(op string) string {
 			if err != nil || at < 0 {
 				return "bad-op"
 			}
-			rs = append(rs, creq{at: at, gz: a["gz"] == "1", m: unhx(a["m"]), host: unhx(a["host"]), path: unhx(a["path"]), x: unhx(a["x"])})
+			ef := 0
+			if v, ok := a["ef"]; ok {
+				ef, err = strconv.Atoi(v)
+				if err != nil || ef < 0 || ef > 2 {
+					return "bad-op"
+				}
+			}
+			rs = append(rs, creq{ef: ef, at: at, gz: a["gz"] == "1", m: unhx(a["m"]), host: unhx(a["host"]), path: unhx(a["path"]), x: unhx(a["x"])})
 		}
 		if len(rs) > 4 {
 			return "bad-op"
@@ -688,12 +1207,15 @@ func genMsg(r *vh.Rand, kind string) *msg {
 			m.dlen = r.Intn(20)
 		}
 	}
+	if m.hasTrl && r.Chance(12) {
+		m.tail = genTail(r, 1+r.Intn(2))
+	}
 	if hasName(m.fs, "content-length") {
-		m.dlen, m.hasTrl, m.trl = -1, false, nil
+		m.dlen, m.hasTrl, m.trl, m.tail = -1, false, nil, nil
 	}
 	m.enc = len(encodeBlock(m.fs, m.qerr))
 	if m.hasTrl {
-		m.tenc = len(encodeBlock(m.trl, false))
+		m.tenc = m.trailerLen()
 	}
 	return m
 }
@@ -702,7 +1224,15 @@ var concHosts = []string{"one.example", "two.example", "a", "b.example:8443", "x
 var concPaths = []string{"/first", "/second", "/", "/a/b?c=d", "/a-much-longer-path/with/segments?and=query&more=1"}
 
 func (rn *runner) GenOp(r *vh.Rand, i int) string {
-	switch r.Pick(40, 30, 30) {
+	switch r.Pick(36, 27, 22, 15) {
+	case 3:
+		n := 2 + r.Intn(3)
+		var sb strings.Builder
+		sb.WriteString("rsp")
+		for k := 0; k < n; k++ {
+			sb.WriteString(" | " + genScript(r, k))
+		}
+		return sb.String()
 	case 0, 1:
 		kind, name := "req", "srv"
 		if r.Pick(57, 43) == 1 {
@@ -715,8 +1245,17 @@ func (rn *runner) GenOp(r *vh.Rand, i int) string {
 		}
 		// one limit per connection: chosen around one of the messages
 		lim := pickGlueLimit(r, msgs[r.Intn(n)])
+		rr := 0
+		if r.Chance(35) {
+			// the consumer of the last message reads on after the first error
+			rr = 1 + r.Intn(3)
+			msgs[n-1], lim = genRetryMsg(r, kind)
+		}
 		var sb strings.Builder
 		fmt.Fprintf(&sb, "%s lim=%d", name, lim)
+		if rr > 0 {
+			fmt.Fprintf(&sb, " rr=%d", rr)
+		}
 		for _, m := range msgs {
 			sb.WriteString(" | " + fmtMsg(m))
 		}
@@ -730,7 +1269,12 @@ func (rn *runner) GenOp(r *vh.Rand, i int) string {
 			if r.Chance(30) {
 				gz = 1
 			}
-			fmt.Fprintf(&sb, " | at=%d gz=%d m=%s host=%s path=%s x=%s", r.Intn(3), gz,
+			ef := ""
+			if r.Chance(18) {
+				// the write of the frame header / of the header block to the stream fails
+				ef = fmt.Sprintf(" ef=%d", 1+r.Intn(2))
+			}
+			fmt.Fprintf(&sb, " | at=%d gz=%d%s m=%s host=%s path=%s x=%s", r.Intn(3), gz, ef,
 				hx([]string{"GET", "POST", "HEAD", "DELETE"}[r.Intn(4)]), hx(concHosts[r.Intn(len(concHosts))]),
 				hx(concPaths[r.Intn(len(concPaths))]), hx(fmt.Sprintf("token-of-request-%d-%s", k, randBytes(r, r.Intn(30), false))))
 		}
